@@ -376,8 +376,10 @@ def check_events_allocfail(ctx):
     for st, (o, k), a in zip(structs, inj, impl):
         t = a.split()
         stage = 0
-        if "ENOMEM" in t:
-            j = t.index("ENOMEM")
+        hits = [j for j, x in enumerate(t) if x == "ENOMEM" and
+                ((j >= 2 and t[j - 2] == "FI") or (j >= 3 and t[j - 3] in ("FN", "FT")))]
+        if hits:
+            j = hits[0]
             # FI p ENOMEM | FN fd op ENOMEM | FT sec usec ENOMEM ; a clock reading right before FT
             # belongs to the failed call
             stage = 1
